@@ -1,5 +1,6 @@
 import ImathVerif.Model.FixedArray
 import ImathVerif.Model.FixedArray2D
+import ImathVerif.Model.FixedVArray
 import ImathVerif.Model.StringTable
 import ImathVerif.Model.BufferProtocol
 import ImathVerif.Model.FixedArrayWitness
@@ -8,7 +9,7 @@ import ImathVerif.Spec.PyList
 Line-protocol driver for the PyImath array models (C19).
 
   drv_fixedarray [maskedAccessThrows] [convertDense] [sliceEmptyBackward] [ifelseConstRead] [maskOnMaskedHonoured]
-                 (each 0|1; default 0 = the code as written)
+                 [componentKeepsMask] [sizeHelperOverloads]          (each 0|1; default 0 = the code as written)
 
 stdin: one op per line, stdout: one canonical line per op.
 
@@ -20,6 +21,7 @@ then ` | ` 2-D arrays `LXxLY[...]` (j-major), then ` | ` matrices `RxC[...]` whe
   reset | alloc 1,2,3 | alloc - | alloci 1,0,1 | len v | getitem v i | getslice v IDX | getmask v m | copy v | convert v
   setscalar v IDX x | setscalarmask v m x | setvector v IDX d | setvectormask v m d
   ifelses v c x | ifelsev v c o | ro v | iadds v x | iaddv v d
+  allocw w c00,c01,..  (array of w-component elements, cell by cell) | comp v k  (component array `.x/.y/...`)
   IDX = i:<int> | s:<start>:<stop>:<step>   (N = None)
 slice normalisation alone (PySlice_GetIndicesEx):
   slice len start stop step            -> `ok start stop step slicelength [positions]` | `err ...`
@@ -28,15 +30,25 @@ slice normalisation alone (PySlice_GetIndicesEx):
   witnesses                            -> the witness programs of `Model/FixedArrayWitness.lean`, `# name` + op lines
 2-D (`Model/FixedArray2D.lean`):
   d2 alloc lx ly vals | d2 item v i j | d2 getslice v IDX IDY | d2 setscalar v IDX IDY x | d2 setvector v IDX IDY d
-  d2 set1d v IDX IDY d1 | d2 getmask v m | d2 setscalarmask v m x | d2 setvectormask v m d
+  d2 set1d v IDX IDY d1 | d2 getmask v m | d2 setscalarmask v m x | d2 setvectormask v m d | d2 alloci lx ly vals
+  d2 fill x lx ly | d2 copy v | d2 len v | d2 set1dmask v m d1 | d2 ifelses v c x | d2 ifelsev v c o
 matrix:
-  m alloc r c vals | m row v i | m getslice v IDX | m setscalar v IDX x | m setvector v IDX d1 | m setmatrix v IDX dm
+  m alloc r c vals | m len v | m row v i | m getslice v IDX | m setscalar v IDX x | m setvector v IDX d1 | m setmatrix v IDX dm
+variable arrays (`Model/FixedVArray.lean`; dump: ` # ` then every live VArray as `w[[..],[..]]`):
+  v new n | v newfill x n | v newsizes m1 x | v copy a | v len a | v row a i | v setelem a i j x | v getslice a IDX
+  v getmask a m1 | v setrow a IDX d1 | v setrowmask a m1 d1 | v setvec a IDX b | v setvecmask a m1 b | v ro a
+  v size a i | v sizeslice a IDX | v sizemask a m1 | v setsize a IDX k | v setsizemask a m1 k | v setsizevec a IDX d1
+  v setsizevecmask a m1 d1                (m1 / d1: ids of 1-D IntArrays, b: id of a VArray)
 string array (`Model/StringTable.lean`):   st new n s | st set i s | st get i      (dump: the strings)
+several string arrays, each with its own table (`Model/StringTable.lean`; output `<res>;` every array as w[..]/r[..]):
+  sa new n s | sa default n | sa len a | sa ro a | sa get a i | sa set a IDX s | sa setmask a bits s | sa setvec a IDX b
+  sa setvecmask a bits b | sa getslice a IDX | sa eq a b | sa ne a b | sa eqs a s | sa nes a s        (bits: 1,0,1)
 buffer protocol (`Model/BufferProtocol.lean`):
   buf get <fromShape> atomic width dims length stride
-  buf from <checks> atomic width dims sizeofT fmt srcfmt srcitemsize shape0 nbytes
+  buf from <checks> <copy 0 memcpy|1 requireContiguous|2 logical> atomic width dims sizeofT fmt srcfmt srcitemsize
+           <shape csv|-> <strides csv|-> <off> <len> <mem hex|->     -> `ok alloc=N bytes=<hex>` | `err <kind>`
 -/
-open ImathVerif.FixedArray ImathVerif.FixedArray2D
+open ImathVerif.FixedArray ImathVerif.FixedArray2D ImathVerif.FixedVArray
 
 def parseInt (s : String) : Int :=
   if s.startsWith "-" then - (Int.ofNat (s.drop 1).toNat!) else Int.ofNat s.toNat!
@@ -80,20 +92,32 @@ def dumpMat (h : Heap) (m : MatView) : String :=
   | .ok l => showInts l
   | .error _ => "oob"
 
+def dumpV (h : VHeap) (v : VView) : String :=
+  (if v.writable then "w" else "r") ++
+  match v.readAll h with
+  | .ok rows => "[" ++ ",".intercalate (rows.map showInts) ++ "]"
+  | .error _ => "oob"
+
 structure DState where
   s : State := State.empty
   env2 : List View2D := []
   envM : List MatView := []
+  vh : VHeap := []
+  envV : List VView := []
+  sas : List (ImathVerif.StringTable.ArrState × Bool) := []     -- string arrays (`sa` ops) with their `_writable`
+  sasW : List (ImathVerif.StringTable.ArrState × Bool) := []    -- the same for WstringArray (`saw` ops)
   str : ImathVerif.StringTable.ArrState := ImathVerif.StringTable.ArrState.empty
 
 def DState.dump (d : DState) : String :=
   " ".intercalate (d.s.env.map (dumpView d.s.heap)) ++
   (if d.env2.isEmpty then "" else " | " ++ " ".intercalate (d.env2.map (dump2D d.s.heap))) ++
-  (if d.envM.isEmpty then "" else " | " ++ " ".intercalate (d.envM.map (dumpMat d.s.heap)))
+  (if d.envM.isEmpty then "" else " | " ++ " ".intercalate (d.envM.map (dumpMat d.s.heap))) ++
+  (if d.envV.isEmpty then "" else " # " ++ " ".intercalate (d.envV.map (dumpV d.vh)))
 
 def parseOp (t : List String) : Option Op :=
   match t with
   | ["alloc", v] => some (.alloc (parseVals v))
+  | ["allocc", v] => some (.alloc (parseVals v))     -- an array of the COMPONENT type of the vector class under test
   | ["alloci", v] => some (.alloc (parseVals v))     -- an IntArray (mask / choice) whatever the element type under test
   | ["len", v] => some (.len v.toNat!)
   | ["getitem", v, i] => some (.getitem v.toNat! (parseInt i))
@@ -160,6 +184,21 @@ def handle2D (d : DState) (t : List String) : DState × String :=
   let h := d.s.heap
   match t with
   | ["alloc", lx, ly, vals] => new2 d (.ok (alloc2D h lx.toNat! ly.toNat! (parseVals vals)))
+  | ["alloci", lx, ly, vals] => new2 d (.ok (alloc2D h lx.toNat! ly.toNat! (parseVals vals)))   -- an IntArray2D (mask / choice)
+  | ["fill", x, lx, ly] => new2 d (.ok (alloc2D h lx.toNat! ly.toNat! (List.replicate (lx.toNat! * ly.toNat!) (parseInt x))))
+  | ["copy", v] =>        -- `IntArray2D(a)`: the copy constructor, another handle on the same data
+    match v2 d v with
+    | .ok a => ({ d with env2 := d.env2 ++ [a] }, s!"new {d.env2.length}")
+    | .error e => (d, showErr e)
+  | ["len", v] =>
+    match v2 d v with
+    | .ok a => (d, s!"int {a.totalLen}")
+    | .error e => (d, showErr e)
+  | ["set1dmask", v, m, dd] =>
+    withHeap d ((v2 d v).bind (fun a => (v2 d m).bind (fun b => (v1 d dd).bind (fun c => setitemArray1DMask h a b c))))
+  | ["ifelses", v, c, x] => new2 d ((v2 d v).bind (fun a => (v2 d c).bind (fun b => ifelseScalar2D h a b (parseInt x))))
+  | ["ifelsev", v, c, o] =>
+    new2 d ((v2 d v).bind (fun a => (v2 d c).bind (fun b => (v2 d o).bind (fun e => ifelseVector2D h a b e))))
   | ["item", v, i, j] =>
     match (v2 d v).bind (fun a => item h a (parseInt i) (parseInt j)) with
     | .ok x => (d, s!"int {x}") | .error e => (d, showErr e)
@@ -181,6 +220,10 @@ def handleMat (d : DState) (t : List String) : DState × String :=
   let h := d.s.heap
   match t with
   | ["alloc", r, c, vals] => newM d (.ok (allocMat h r.toNat! c.toNat! (parseVals vals)))
+  | ["len", v] =>
+    match vM d v with
+    | .ok m => (d, s!"int {m.rows}")
+    | .error e => (d, showErr e)
   | ["row", v, i] =>
     match (vM d v).bind (fun m => matRow m (parseInt i)) with
     | .ok row => ({ d with s := ⟨h, d.s.env ++ [row]⟩ }, s!"new {d.s.env.length}")
@@ -218,62 +261,287 @@ def handleStr (d : DState) (t : List String) : DState × String :=
       | none => (d, "err;" ++ dumpS d.str)
   | _ => (d, "bad")
 
+def hexVal (c : Char) : Nat :=
+  if c.isDigit then c.toNat - '0'.toNat else if 'a' ≤ c ∧ c ≤ 'f' then c.toNat - 'a'.toNat + 10 else 0
+
+def parseHex : List Char → List Nat
+  | a :: b :: rest => (hexVal a * 16 + hexVal b) :: parseHex rest
+  | _ => []
+
+def hexDigit (n : Nat) : Char := if n < 10 then Char.ofNat ('0'.toNat + n) else Char.ofNat ('a'.toNat + n - 10)
+
+def showHex (l : List Nat) : String :=
+  String.ofList (l.flatMap (fun b => [hexDigit (b / 16 % 16), hexDigit (b % 16)]))
+
+open ImathVerif.StringTable in
+/-- several string arrays, each with its own table: `sa <op> ...` (output `<res>;<every array as w[..]/r[..]>`) -/
+def handleSA (cfg : Cfg) (d : DState) (t : List String) : DState × String :=
+  let dumpA (p : ArrState × Bool) : String :=
+    (if p.2 then "w" else "r") ++ "[" ++
+      ",".intercalate ((List.range p.1.idx.length).map (fun i => (getitemString p.1 i).getD "?")) ++ "]"
+  let dump (l : List (ArrState × Bool)) : String := " ".intercalate (l.map dumpA)
+  let fin (d' : DState) (r : String) : DState × String := (d', r ++ ";" ++ dump d'.sas)
+  let arr (s : String) : Except Err (ArrState × Bool) :=
+    match d.sas[s.toNat!]? with | some a => .ok a | none => .error .badRef
+  let positions (n : Nat) (ix : String) : Except Err (List Nat) :=
+    match extractSliceIndices n (parseIdx ix) (-1) cfg.minStart with
+    | .ok s => .ok ((List.range s.slicelength).map s.at)
+    | .error e => .error e
+  let put (k : String) (r : Option ArrState) : DState × String :=
+    match r with
+    | some a' => fin { d with sas := d.sas.set k.toNat! (a', true) } "ok"
+    | none => fin d "err model:tableFull"
+  let bools (l : List Bool) : String := showInts (l.map (fun b => if b then 1 else 0))
+  match t with
+  | ["new", n, s] =>
+    match createUniform s n.toNat! with
+    | some a => fin { d with sas := d.sas ++ [(a, true)] } s!"new {d.sas.length}"
+    | none => fin d "err model:tableFull"
+  | ["default", n] =>
+    match createUniform "" n.toNat! with
+    | some a => fin { d with sas := d.sas ++ [(a, true)] } s!"new {d.sas.length}"
+    | none => fin d "err model:tableFull"
+  | ["len", a] => match arr a with
+    | .ok p => fin d s!"int {p.1.idx.length}"
+    | .error e => fin d (showErr e)
+  | ["ro", a] => match arr a with
+    | .ok p => fin { d with sas := d.sas.set a.toNat! (p.1, false) } "ok"
+    | .error e => fin d (showErr e)
+  | ["get", a, i] => match arr a with
+    | .error e => fin d (showErr e)
+    | .ok p =>
+      match canonicalIndex p.1.idx.length (parseInt i) with
+      | .error e => fin d (showErr e)
+      | .ok k => fin d ("str " ++ (getitemString p.1 k).getD "?")
+  | ["set", a, ix, s] => match arr a with
+    | .error e => fin d (showErr e)
+    | .ok p =>
+      if !p.2 then fin d (showErr .readOnly) else
+      match positions p.1.idx.length ix with
+      | .error e => fin d (showErr e)
+      | .ok pos => put a (setPositions p.1 pos s)
+  | ["setmask", a, bits, s] => match arr a with
+    | .error e => fin d (showErr e)
+    | .ok p =>
+      let b := parseVals bits
+      if !p.2 then fin d (showErr .readOnly) else
+      if b.length ≠ p.1.idx.length then fin d (showErr .dimMismatch) else
+      put a (setPositions p.1 (maskIndices b) s)
+  | ["setvec", a, ix, bb] => match arr a, arr bb with
+    | .error e, _ => fin d (showErr e)
+    | _, .error e => fin d (showErr e)
+    | .ok p, .ok q =>
+      if !p.2 then fin d (showErr .readOnly) else
+      match positions p.1.idx.length ix with
+      | .error e => fin d (showErr e)
+      | .ok pos =>
+        if q.1.idx.length ≠ pos.length then fin d (showErr .srcDimMismatch) else
+        let rd : Nat → ArrState → Option String :=
+          if a.toNat! == bb.toNat! then (fun i cur => getitemString cur i) else (fun i _ => getitemString q.1 i)
+        put a (setFromArray p.1 rd (pos.zip (List.range pos.length)))
+  | ["setvecmask", a, bits, bb] => match arr a, arr bb with
+    | .error e, _ => fin d (showErr e)
+    | _, .error e => fin d (showErr e)
+    | .ok p, .ok q =>
+      let b := parseVals bits
+      if !p.2 then fin d (showErr .readOnly) else
+      if b.length ≠ p.1.idx.length then fin d (showErr .dimMismatch) else
+      let pos := maskIndices b
+      let rd : Nat → ArrState → Option String :=
+        if a.toNat! == bb.toNat! then (fun i cur => getitemString cur i) else (fun i _ => getitemString q.1 i)
+      if q.1.idx.length = p.1.idx.length then put a (setFromArray p.1 rd (pos.zip pos))
+      else if q.1.idx.length ≠ pos.length then fin d (showErr .srcDimMismatch)
+      else put a (setFromArray p.1 rd (pos.zip (List.range pos.length)))
+  | ["getslice", a, ix] => match arr a with
+    | .error e => fin d (showErr e)
+    | .ok p =>
+      match positions p.1.idx.length ix with
+      | .error e => fin d (showErr e)
+      | .ok pos =>
+        match getSliceString p.1 pos with
+        | some r => fin { d with sas := d.sas ++ [(r, true)] } s!"new {d.sas.length}"
+        | none => fin d "err model:lookup"
+  | [op, a, bb] =>
+    if op == "eq" || op == "ne" then
+      match arr a, arr bb with
+      | .error e, _ => fin d (showErr e)
+      | _, .error e => fin d (showErr e)
+      | .ok p, .ok q =>
+        if p.1.idx.length ≠ q.1.idx.length then fin d (showErr .dimMismatch) else
+        match eqArrays p.1 q.1 with
+        | some l => fin d ("ints " ++ bools (if op == "eq" then l else l.map (!·)))
+        | none => fin d "err model:lookup"
+    else if op == "eqs" || op == "nes" then
+      match arr a with
+      | .error e => fin d (showErr e)
+      | .ok p => fin d ("ints " ++ bools (if op == "eqs" then eqString p.1 bb else (eqString p.1 bb).map (!·)))
+    else fin d "bad"
+  | _ => fin d "bad"
+
 open ImathVerif.BufferProtocol in
 def handleBuf (t : List String) : String :=
   let showNats (l : List Nat) : String := "(" ++ ",".intercalate (l.map toString) ++ ")"
+  let nats (s : String) : List Nat := if s == "-" then [] else (s.splitOn ",").map String.toNat!
+  let ints (s : String) : List Int := if s == "-" then [] else (s.splitOn ",").map parseInt
   match t with
   | ["get", fs, a, w, dm, len, st] =>
     let ty : ElemTy := ⟨a.toNat!, w.toNat!, dm.toNat!, 0, 'x'⟩
-    let b := getbuffer ⟨fs == "1", false⟩ ty len.toNat! st.toNat!
+    let b := getbuffer ⟨fs == "1", false, .memcpy⟩ ty len.toNat! st.toNat!
     s!"len={b.len} itemsize={b.itemsize} ndim={b.ndim} shape={showNats b.shape} strides={showNats b.strides}"
-  | ["from", ck, a, w, dm, sz, fmt, sfmt, sitem, shape0, nbytes] =>
+  | ["from", ck, mode, a, w, dm, sz, fmt, sfmt, sitem, shape, strides, off, len, mem] =>
     let ty : ElemTy := ⟨a.toNat!, w.toNat!, dm.toNat!, sz.toNat!, fmt.front⟩
-    let src : Src := ⟨if sfmt == "NULL" then [] else sfmt.toList, sitem.toNat!, shape0.toNat!, List.replicate nbytes.toNat! 1⟩
-    match fromBuffer ⟨false, ck == "1"⟩ ty src with
-    | .ok bytes => s!"ok alloc={bytes.length}"
+    let src : Src := ⟨if sfmt == "NULL" then [] else sfmt.toList, sitem.toNat!, nats shape, ints strides,
+                      if mem == "-" then [] else parseHex mem.toList, off.toNat!, len.toNat!⟩
+    let cm : CopyMode := if mode == "2" then .logical else if mode == "1" then .requireContiguous else .memcpy
+    match fromBuffer ⟨false, ck == "1", cm⟩ ty src with
+    | .ok bytes => s!"ok alloc={bytes.length} bytes={showHex bytes}"
     | .error .unsupportedType => "err unsupportedType"
     | .error .mismatch => "err mismatch"
+    | .error .notContiguous => "err notContiguous"
     | .error .oob => "err oob"
+    | .error .oobRead => "err oobRead"
   | _ => "bad"
 
-partial def loop (cfg : Cfg) (stdin stdout : IO.FS.Stream) (d : DState) : IO Unit := do
+/-- `FixedVArray` (`Model/FixedVArray.lean`): `v <op> ...` -/
+def handleV (so : Bool) (d : DState) (t : List String) : DState × String :=
+  let vv (s : String) : Except Err VView := match d.envV[s.toNat!]? with | some v => .ok v | none => .error .badRef
+  let ints (s : String) : Except Err (List Int) := (v1 d s).bind (fun a => a.readAll d.s.heap a.length)
+  let newV (r : Except Err (VHeap × VView)) : DState × String :=
+    match r with
+    | .ok (h, v) => ({ d with vh := h, envV := d.envV ++ [v] }, s!"new {d.envV.length}")
+    | .error e => (d, showErr e)
+  let wres (r : Except Err WRes) : DState × String :=
+    match r with
+    | .ok (h, none) => ({ d with vh := h }, "ok")
+    | .ok (h, some e) => ({ d with vh := h }, showErr e)
+    | .error e => (d, showErr e)
+  let new1 (r : Except Err (List Int)) : DState × String :=
+    match r with
+    | .ok vals =>
+      let (h, f) := alloc d.s.heap vals
+      ({ d with s := ⟨h, d.s.env ++ [f]⟩ }, s!"new {d.s.env.length}")
+    | .error e => (d, showErr e)
+  match t with
+  | ["new", n] => newV (.ok (allocV d.vh (List.replicate n.toNat! [])))
+  | ["newfill", x, n] => newV (.ok (allocV d.vh (List.replicate n.toNat! [parseInt x])))
+  | ["newsizes", m, x] => newV ((ints m).bind (fun sz => newSizes d.vh sz (parseInt x)))
+  | ["copy", a] => match vv a with
+    | .ok v => ({ d with envV := d.envV ++ [v] }, s!"new {d.envV.length}")
+    | .error e => (d, showErr e)
+  | ["len", a] => match vv a with
+    | .ok v => (d, s!"int {v.length}")
+    | .error e => (d, showErr e)
+  | ["row", a, i] => match (vv a).bind (fun v => getRow d.vh v (parseInt i)) with
+    | .ok r => (d, "row " ++ showInts r)
+    | .error e => (d, showErr e)
+  | ["setelem", a, i, j, x] =>
+    wres ((vv a).bind (fun v => match setElem d.vh v (parseInt i) (parseInt j) (parseInt x) with
+                               | .ok h => .ok (h, none) | .error e => .ok (d.vh, some e)))
+  | ["getslice", a, ix] => newV ((vv a).bind (fun v => getsliceV d.vh v (parseIdx ix)))
+  | ["getmask", a, m] => match (vv a).bind (fun v => (ints m).bind (fun b => getmaskV v b)) with
+    | .ok f => ({ d with envV := d.envV ++ [f] }, s!"new {d.envV.length}")
+    | .error e => (d, showErr e)
+  | ["setrow", a, ix, dd] => wres ((vv a).bind (fun v => (ints dd).bind (fun r => .ok (setRow d.vh v (parseIdx ix) r))))
+  | ["setrowmask", a, m, dd] =>
+    wres ((vv a).bind (fun v => (ints m).bind (fun b => (ints dd).bind (fun r => .ok (setRowMask d.vh v b r)))))
+  | ["setvec", a, ix, b] => wres ((vv a).bind (fun v => (vv b).bind (fun w => .ok (setVec d.vh v (parseIdx ix) w))))
+  | ["setvecmask", a, m, b] =>
+    wres ((vv a).bind (fun v => (ints m).bind (fun bb => (vv b).bind (fun w => .ok (setVecMask d.vh v bb w)))))
+  | ["ro", a] => match vv a with
+    | .ok v => ({ d with envV := d.envV.set a.toNat! { v with writable := false } }, "ok")
+    | .error e => (d, showErr e)
+  | ["size", a, i] =>
+    if so then
+      match (vv a).bind (fun v => sizeGet d.vh v (parseInt i)) with
+      | .ok k => (d, s!"int {k}")
+      | .error e => (d, showErr e)
+    else
+      -- as registered: `getitem_slice (PyObject*)` is tried first and accepts the int: a 1-element IntArray
+      match (vv a).bind (fun v => sizeSlice d.vh v (.int (parseInt i))) with
+      | .ok l => (d, "arr " ++ showInts l)
+      | .error e => (d, showErr e)
+  | ["sizeslice", a, ix] => new1 ((vv a).bind (fun v => sizeSlice d.vh v (parseIdx ix)))
+  | ["sizemask", a, m] =>
+    if so then new1 ((vv a).bind (fun v => (ints m).bind (fun b => sizeMask d.vh v b)))
+    else
+      -- as registered: `getitem_slice (PyObject*)` is tried first: "Object is not a slice"
+      match (vv a).bind (fun _ => ints m) with
+      | .ok _ => (d, "err TypeError:notASlice")
+      | .error e => (d, showErr e)
+  | ["setsize", a, ix, k] => wres ((vv a).bind (fun v => .ok (setSize d.vh v (parseIdx ix) k.toNat!)))
+  | ["setsizemask", a, m, k] => wres ((vv a).bind (fun v => (ints m).bind (fun b => .ok (setSizeMask d.vh v b k.toNat!))))
+  | ["setsizevec", a, ix, dd] =>
+    wres ((vv a).bind (fun v => (ints dd).bind (fun r => .ok (setSizeVec d.vh v (parseIdx ix) r))))
+  | ["setsizevecmask", a, m, dd] =>
+    wres ((vv a).bind (fun v => (ints m).bind (fun b => (ints dd).bind (fun r => .ok (setSizeVecMask d.vh v b r)))))
+  | _ => (d, "bad")
+
+/-- component arrays (outside `Op`, like matrix rows): `allocw w cells`, `comp v k` -/
+def handleComp (km : Bool) (d : DState) (t : List String) : DState × String :=
+  match t with
+  | ["allocw", w, cells] =>
+    let (h, v) := allocWide d.s.heap w.toNat! (parseVals cells)
+    ({ d with s := ⟨h, d.s.env ++ [v]⟩ }, s!"new {d.s.env.length}")
+  | ["comp", v, k] =>
+    match (v1 d v).bind (fun a => compView km a k.toNat!) with
+    | .ok c => ({ d with s := ⟨d.s.heap, d.s.env ++ [c]⟩ }, s!"new {d.s.env.length}")
+    | .error e => (d, showErr e)
+  | _ => (d, "bad")
+
+partial def loop (cfg : Cfg) (km so : Bool) (stdin stdout : IO.FS.Stream) (d : DState) : IO Unit := do
   stdout.flush
   let line ← stdin.getLine
   if line.isEmpty then return
   let t := (line.trimAscii.toString.splitOn " ").filter (· ≠ "")
   match t with
-  | [] => loop cfg stdin stdout d
-  | ["reset"] => stdout.putStrLn "reset"; loop cfg stdin stdout {}
-  | "slice" :: rest => stdout.putStrLn (handleSlice cfg rest); loop cfg stdin stdout d
-  | "specslice" :: rest => stdout.putStrLn (handleSpecSlice rest); loop cfg stdin stdout d
-  | "specgetitem" :: rest => stdout.putStrLn (handleSpecGetitem rest); loop cfg stdin stdout d
+  | [] => loop cfg km so stdin stdout d
+  | ["reset"] => stdout.putStrLn "reset"; loop cfg km so stdin stdout {}
+  | "slice" :: rest => stdout.putStrLn (handleSlice cfg rest); loop cfg km so stdin stdout d
+  | "specslice" :: rest => stdout.putStrLn (handleSpecSlice rest); loop cfg km so stdin stdout d
+  | "specgetitem" :: rest => stdout.putStrLn (handleSpecGetitem rest); loop cfg km so stdin stdout d
   | ["witnesses"] =>
     for (name, ops) in witnesses do
       stdout.putStrLn ("# " ++ name)
       for op in ops do stdout.putStrLn op.line
-    loop cfg stdin stdout d
+    stdout.putStrLn "# component-of-masked"
+    for l in witnessComponentLines do stdout.putStrLn l
+    stdout.putStrLn "# varray-size-overloads"
+    for l in witnessVSizeLines do stdout.putStrLn l
+    loop cfg km so stdin stdout d
+  | "allocw" :: _ | "comp" :: _ =>
+    let (d', out) := handleComp km d t
+    stdout.putStrLn (out ++ ";" ++ d'.dump); loop cfg km so stdin stdout d'
+  | "v" :: rest =>
+    let (d', out) := handleV so d rest
+    stdout.putStrLn (out ++ ";" ++ d'.dump); loop cfg km so stdin stdout d'
   | "d2" :: rest =>
     let (d', out) := handle2D d rest
-    stdout.putStrLn (out ++ ";" ++ d'.dump); loop cfg stdin stdout d'
+    stdout.putStrLn (out ++ ";" ++ d'.dump); loop cfg km so stdin stdout d'
   | "m" :: rest =>
     let (d', out) := handleMat d rest
-    stdout.putStrLn (out ++ ";" ++ d'.dump); loop cfg stdin stdout d'
+    stdout.putStrLn (out ++ ";" ++ d'.dump); loop cfg km so stdin stdout d'
+  | "saw" :: rest =>     -- WstringArray: the same model
+    let (d', out) := handleSA cfg { d with sas := d.sasW } rest
+    stdout.putStrLn out; loop cfg km so stdin stdout { d with sasW := d'.sas }
+  | "sa" :: rest =>
+    let (d', out) := handleSA cfg d rest
+    stdout.putStrLn out; loop cfg km so stdin stdout d'
   | "st" :: rest =>
     let (d', out) := handleStr d rest
-    stdout.putStrLn out; loop cfg stdin stdout d'
-  | "buf" :: rest => stdout.putStrLn (handleBuf rest); loop cfg stdin stdout d
+    stdout.putStrLn out; loop cfg km so stdin stdout d'
+  | "buf" :: rest => stdout.putStrLn (handleBuf rest); loop cfg km so stdin stdout d
   | _ =>
     match parseOp t with
-    | none => stdout.putStrLn "bad"; loop cfg stdin stdout d
+    | none => stdout.putStrLn "bad"; loop cfg km so stdin stdout d
     | some op =>
       let (s', r) := step cfg d.s op
       let d' := { d with s := s' }
       stdout.putStrLn (showRes r ++ ";" ++ d'.dump)
-      loop cfg stdin stdout d'
+      loop cfg km so stdin stdout d'
 
 def main (args : List String) : IO Unit := do
   let flag (i : Nat) : Bool := (args[i]? |>.getD "0") == "1"
   let cfg : Cfg := ⟨flag 0, flag 1, flag 2, flag 3, flag 4⟩
   let stdin ← IO.getStdin
   let stdout ← IO.getStdout
-  loop cfg stdin stdout {}
+  loop cfg (flag 5) (flag 6) stdin stdout {}
